@@ -45,7 +45,7 @@ func readDefaultTables(c *Ctx) *defaultTables {
 		okShape = t.Op == "lookup" && t.Name == "" && t.Args[0].Op == "global" && t.Args[1].isParam(0)
 	}
 	if !okShape {
-		c.bad("WRAPPERS", "codon.GetCodonTable", get.Pos(), "GetCodonTable(i) is expected to return the entry for i of a package-level table map; got "+short(fmt.Sprint(t)))
+		c.undecided("WRAPPERS", "codon.GetCodonTable", get.Pos(), "GetCodonTable(i) is expected to return the entry for i of a package-level table map; got "+short(fmt.Sprint(t)))
 		return nil
 	}
 	c.ok("WRAPPERS", "codon.GetCodonTable", get.Pos(), "returns "+t.Args[0].Name+"[index] (plain map lookup keyed by the argument)")
@@ -53,18 +53,18 @@ func readDefaultTables(c *Ctx) *defaultTables {
 	p := w.pkg("transform/codon")
 	v := pkgVar(p, dt.globalName)
 	if v == nil {
-		c.missing("TABLE-NCBI", "tablemap", "package variable "+dt.globalName)
+		c.missingHelper("TABLE-NCBI", "tablemap", "package variable "+dt.globalName)
 		return nil
 	}
 	init := varInit(p, v)
 	if init == nil {
-		c.bad("TABLE-NCBI", "tablemap", v.Pos(), "table map "+dt.globalName+" is not initialised by a single composite literal (or is assigned elsewhere)")
+		c.undecided("TABLE-NCBI", "tablemap", v.Pos(), "table map "+dt.globalName+" is not initialised by a single composite literal (or is assigned elsewhere)")
 		return nil
 	}
 	av := evalAST(p, init)
 	dt.mapPos = av.Pos
 	if av.Kind != "comp" {
-		c.bad("TABLE-NCBI", "tablemap", av.Pos, "table map initialiser is not a composite literal: "+av.String())
+		c.undecided("TABLE-NCBI", "tablemap", av.Pos, "table map initialiser is not a composite literal: "+av.String())
 		return nil
 	}
 	for _, e := range av.Elts {
@@ -120,7 +120,7 @@ func ruleC06(c *Ctx) {
 	w := c.W
 	// --- TABLE-NCBI
 	for _, pr := range dt.problems {
-		c.bad("TABLE-NCBI", "tablemap:shape", dt.mapPos, pr)
+		c.undecided("TABLE-NCBI", "tablemap:shape", dt.mapPos, pr)
 	}
 	want := ncbiIDs()
 	c.check(fmt.Sprint(want) == fmt.Sprint(dt.ids), "TABLE-NCBI", "idset", dt.mapPos,
@@ -151,7 +151,7 @@ func ruleC06(c *Ctx) {
 	}
 	c.Sites += 25 * 128
 	if dt.gen == nil {
-		c.missing("SHAPE-GEN", "generator", "table generator function "+dt.genName)
+		c.missingHelper("SHAPE-GEN", "generator", "table generator function "+dt.genName)
 		return
 	}
 	checkGenerator(c, dt.gen)
@@ -159,156 +159,276 @@ func ruleC06(c *Ctx) {
 	_ = w
 }
 
+// evalIntTerm evaluates an integer index expression over one variable (rendered term varStr) by the
+// checker's own arithmetic: constants, + - * / %. This reads a closed-form table index, it does not run poly.
+func evalIntTerm(t *Term, varStr string, val int64) (int64, bool) {
+	if t == nil {
+		return 0, false
+	}
+	if t.String() == varStr {
+		return val, true
+	}
+	if k, ok := t.constInt(); ok {
+		return k, true
+	}
+	if t.Op == "conv" && len(t.Args) == 1 {
+		return evalIntTerm(t.Args[0], varStr, val)
+	}
+	if t.Op == "binop" && len(t.Args) == 2 {
+		a, ok1 := evalIntTerm(t.Args[0], varStr, val)
+		b, ok2 := evalIntTerm(t.Args[1], varStr, val)
+		if !ok1 || !ok2 {
+			return 0, false
+		}
+		switch t.Name {
+		case "+":
+			return a + b, true
+		case "-":
+			return a - b, true
+		case "*":
+			return a * b, true
+		case "/":
+			if b == 0 {
+				return 0, false
+			}
+			return a / b, true
+		case "%":
+			if b == 0 {
+				return 0, false
+			}
+			return a % b, true
+		case ">>":
+			return a >> uint(b), true
+		case "&":
+			return a & b, true
+		}
+	}
+	return 0, false
+}
+
 // checkGenerator: SHAPE-GEN on the function that every default-table entry calls.
 func checkGenerator(c *Ctx, gen *ssa.Function) {
 	c.useFn(gen)
-	tb := newTB(gen)
-	gname := fname(gen)
-	// the triplet: conv[string](slice(3-byte array with bytes index(const S_k, idx)))
+	tb := newDeepTB(gen)
+	// the triplet: the Triplet field of the codon appended per index; a string built from three bytes,
+	// each a lookup S_k[E_k(i)] in a constant string
 	var triplet *Term
+	var parts [3]*Term
+	var tripletAt *ssa.MapUpdate
 	eachInstr(gen, func(i ssa.Instruction) {
-		if cv, ok := i.(*ssa.Convert); ok && isStringType(cv.Type()) {
-			t := tb.T(cv)
-			if t.Op == "conv" && len(t.Args) == 1 && t.Args[0].Op == "slice" && t.Args[0].Args[0].Op == "anyof" {
-				triplet = t
+		mu, ok := i.(*ssa.MapUpdate)
+		if !ok {
+			return
+		}
+		for _, site := range topAppendSites(tb.T(mu.Value)) {
+			t := partialOf(site.Elem, "Triplet")
+			if t == nil || t.Op != "conv" || len(t.Args) != 1 || t.Args[0].Op != "slice" {
+				continue
+			}
+			inner := t.Args[0].Args[0]
+			ps := []*Term{inner}
+			if inner.Op == "anyof" {
+				ps = inner.Args
+			}
+			var got [3]*Term
+			n := 0
+			for _, a := range ps {
+				if a.Op == "partial" && len(a.Name) == 3 && a.Name[0] == '[' {
+					k := int(a.Name[1] - '0')
+					if k >= 0 && k < 3 && got[k] == nil {
+						got[k] = a.Args[0]
+						n++
+					}
+				}
+			}
+			if n == 3 {
+				triplet, parts = t, got
+				tripletAt = mu
 			}
 		}
 	})
 	if triplet == nil {
-		c.bad("SHAPE-GEN", "triplet", gen.Pos(), "no string built from a 3-byte array of base-table letters found in "+gname+" (unrecognised shape)")
+		c.undecided("SHAPE-GEN", "triplet(i) = i-th codon in NCBI order", gen.Pos(), "no string built from a 3-byte array found in "+fname(gen))
 		return
 	}
-	parts := map[string]*Term{}
-	for _, a := range triplet.Args[0].Args[0].Args {
-		if a.Op == "partial" {
-			parts[a.Name] = a.Args[0]
-		}
-	}
-	cod := allCodonsNCBI()
-	wantBase := [3]string{}
-	for k := 0; k < 3; k++ {
-		var sb strings.Builder
-		for _, cd := range cod {
-			sb.WriteByte(cd[k])
-		}
-		wantBase[k] = sb.String()
-	}
+	// the index variable: the non-constant leaf shared by the three byte expressions
 	var idx *Term
-	okAll := len(parts) == 3
-	why := []string{}
+	recognised := true
 	for k := 0; k < 3; k++ {
-		p := parts[fmt.Sprintf("[%d]", k)]
+		p := parts[k]
 		if p == nil || p.Op != "index" {
-			okAll = false
-			why = append(why, fmt.Sprintf("byte %d of the triplet is not a base-table lookup", k))
+			recognised = false
 			continue
 		}
-		s, isStr := p.Args[0].constStr()
-		if !isStr || s != wantBase[k] {
-			okAll = false
-			why = append(why, fmt.Sprintf("byte %d of the triplet is read from %s, NCBI Base%d is %q", k, short(p.Args[0].String()), k+1, wantBase[k]))
+		if _, isStr := p.Args[0].constStr(); !isStr {
+			recognised = false
 		}
-		if idx == nil {
-			idx = p.Args[1]
-		} else if idx.String() != p.Args[1].String() {
-			okAll = false
-			why = append(why, "the three base tables are indexed by different values")
-		}
+		p.Args[1].walk(func(x *Term) {
+			if idx == nil && (x.Op == "extract" || x.Op == "rangeidx" || (x.Op == "phi" && x.Cyc)) {
+				idx = x
+			}
+		})
 	}
-	c.check(okAll, "SHAPE-GEN", "triplet=base1[i]base2[i]base3[i]", triplet.V.Pos(), "triplet bytes 0,1,2 come from NCBI Base1,Base2,Base3 at one index", strings.Join(why, "; "))
-	if idx == nil {
+	if !recognised || idx == nil {
+		c.undecided("SHAPE-GEN", "triplet(i) = i-th codon in NCBI order", triplet.V.Pos(), "the three bytes of the triplet are not lookups in constant strings by one index variable")
 		return
 	}
-	// index is the range index over the residue string (param 0)
-	wantIdx := "extract[1](next(range(param[0])))"
-	c.check(idx.String() == wantIdx, "SHAPE-GEN", "index=range(residues)", triplet.V.Pos(), "i is the range index over the residue string", "base tables indexed by "+short(idx.String())+", want the range index over the residue-string parameter")
-	residue := "extract[2](next(range(param[0])))"
-	// codon appended under the residue
-	nUpd, okUpd := 0, false
-	var updPos token.Pos
+	cod := allCodonsNCBI()
+	var diffs []string
+	evalOK := true
+	for i := 0; i < 64 && evalOK; i++ {
+		var trip [3]byte
+		for k := 0; k < 3; k++ {
+			sK, _ := parts[k].Args[0].constStr()
+			e, ok := evalIntTerm(parts[k].Args[1], idx.String(), int64(i))
+			if !ok || e < 0 || int(e) >= len(sK) {
+				evalOK = false
+				break
+			}
+			trip[k] = sK[e]
+		}
+		if evalOK && string(trip[:]) != cod[i] && len(diffs) < 4 {
+			diffs = append(diffs, fmt.Sprintf("i=%d gives %s, NCBI's %d-th codon is %s", i, string(trip[:]), i, cod[i]))
+		}
+	}
+	if !evalOK {
+		c.undecided("SHAPE-GEN", "triplet(i) = i-th codon in NCBI order", triplet.V.Pos(), "the index expressions of the base tables could not be evaluated for i = 0..63")
+		return
+	}
+	c.check(len(diffs) == 0, "SHAPE-GEN", "triplet(i) = i-th codon in NCBI order", triplet.V.Pos(), "for i = 0..63 the three bytes spell the i-th codon of NCBI's TCAG order", strings.Join(diffs, "; "))
+	c.Sites += 64
+	// i ranges over the residue string; the residue at i keys the codon list
+	residueOf := func(t *Term) bool {
+		// rune at the same position of param[0]
+		if idx.Op == "extract" && t.Op == "extract" && t.Name == "2" && len(t.Args) == 1 && len(idx.Args) == 1 && t.Args[0].String() == idx.Args[0].String() {
+			return t.Args[0].String() == "next(range(param[0]))"
+		}
+		x := t
+		if x.Op == "conv" && len(x.Args) == 1 {
+			x = x.Args[0]
+		}
+		return (x.Op == "index" && x.Args[0].isParam(0) && x.Args[1].String() == idx.String()) || (x.Op == "each" && x.Args[0].isParam(0))
+	}
+	nUpd := 0
+	st := unknown
+	why := "no append of a Codon under the residue found"
+	var updPos = gen.Pos()
 	eachInstr(gen, func(i ssa.Instruction) {
 		mu, ok := i.(*ssa.MapUpdate)
 		if !ok {
 			return
 		}
 		v := tb.T(mu.Value)
-		if !v.isCall("builtin:append") {
+		sites := topAppendSites(v)
+		if len(sites) != 1 {
+			return
+		}
+		el := sites[0].Elem
+		trp, wt := partialOf(el, "Triplet"), partialOf(el, "Weight")
+		if trp == nil || trp.String() != triplet.String() {
 			return
 		}
 		nUpd++
 		updPos = mu.Pos()
 		key := tb.T(mu.Key)
-		elem := v.Args[1]
-		hasTrip := elem.contains(func(x *Term) bool { return x.Op == "partial" && x.Name == ".Triplet" && x.Args[0].String() == triplet.String() })
-		hasW := elem.contains(func(x *Term) bool { return x.Op == "partial" && x.Name == ".Weight" && x.Args[0].isConst("1") })
-		sameMap := v.Args[0].Op == "lookup" && v.Args[0].Args[1].String() == key.String()
-		if key.String() == residue && hasTrip && hasW && sameMap {
-			okUpd = true
+		switch {
+		case !residueOf(key):
+			st = stateOf(false, nil, key)
+			why = "the codon is filed under " + short(key.String()) + ", want the residue at the same index of the residue string"
+		case wt == nil:
+			st, why = unknown, "codon weight not set in the literal"
+		case !wt.isConst("1"):
+			if wt.Op == "const" {
+				st, why = broken, "default codons get weight "+wt.Name+"; a default table carries uniform weight 1"
+			} else {
+				st, why = unknown, "codon weight is "+short(wt.String())
+			}
+		default:
+			st = holds
 		}
 	})
-	c.check(nUpd == 1 && okUpd, "SHAPE-GEN", "codon{triplet,1} appended under aminoAcids[i]", updPos,
-		"the codon (triplet, weight 1) is appended to the list keyed by the residue at the same index",
-		fmt.Sprintf("expected exactly one append of Codon{triplet, 1} under the residue rune at index i (found %d appends, matching=%v)", nUpd, okUpd))
+	if nUpd > 1 {
+		st, why = unknown, fmt.Sprintf("%d sites append codons", nUpd)
+	}
+	c.judge(st, "SHAPE-GEN", "codon{triplet,1} appended under aminoAcids[i]", updPos, "the codon (triplet, weight 1) is appended to the list keyed by the residue at the same index", why)
 	// start / stop lists
-	rets := returnsOf(gen)
-	if len(rets) != 1 {
-		c.bad("SHAPE-GEN", "return", gen.Pos(), "generator has several returns (unrecognised shape)")
+	var rt *Term
+	if alts := resultAlts(tb, gen, 0); len(alts) == 1 {
+		rt = alts[0].T
+	}
+	if rt == nil {
+		c.undecided("SHAPE-GEN", "start/stop lists", gen.Pos(), "generator has several returns")
 		return
 	}
-	rt := tb.T(rets[0].Results[0])
-	field := func(name string) *Term {
-		var out *Term
-		for _, a := range rt.Args {
-			if a.Op == "partial" && a.Name == "."+name {
-				out = a.Args[0]
-			}
-		}
-		return out
+	headBlock := loopBodyEntry(tripletAt.Block())
+	if headBlock == nil {
+		c.undecided("SHAPE-GEN", "start/stop lists", gen.Pos(), "codons are not appended in a loop")
+		return
 	}
-	headBlock := triplet.V.(ssa.Instruction).Block()
 	for _, spec := range []struct {
 		fld  string
-		mark string
+		mark int64
 		name string
-	}{{"StartCodons", "77", "start iff starts[i]=='M'"}, {"StopCodons", "42", "stop iff starts[i]=='*'"}} {
-		ft := field(spec.fld)
+	}{{"StartCodons", 77, "start iff starts[i]=='M'"}, {"StopCodons", 42, "stop iff starts[i]=='*'"}} {
+		ft := partialOf(rt, spec.fld)
 		if ft == nil {
-			c.bad("SHAPE-GEN", spec.name, rets[0].Pos(), "returned Table has no "+spec.fld+" built in this function")
+			c.undecided("SHAPE-GEN", spec.name, gen.Pos(), "returned Table's "+spec.fld+" is not built in this function")
 			continue
 		}
 		apps := topAppendSites(ft)
-		good := len(apps) == 1
-		msg := fmt.Sprintf("%d append sites feed %s, want 1", len(apps), spec.fld)
-		if good {
-			a := apps[0]
-			blk := a.At.Block()
-			pc := pathCond(tb, headBlock, blk).String()
-			wantPC := "binop[==](const[" + spec.mark + "], index(param[1], " + wantIdx + "))"
-			carries := a.Elem.String() == triplet.String()
-			if pc != wantPC || !carries {
-				good = false
-				msg = fmt.Sprintf("append to %s happens under %s (want %s), carries triplet=%v", spec.fld, short(pc), wantPC, carries)
+		if len(apps) != 1 || apps[0].Elem.String() != triplet.String() {
+			c.undecided("SHAPE-GEN", spec.name, gen.Pos(), fmt.Sprintf("%d append sites feed %s (want one appending the triplet)", len(apps), spec.fld))
+			continue
+		}
+		if !headBlock.Dominates(apps[0].At.Block()) {
+			c.undecided("SHAPE-GEN", spec.name, gen.Pos(), spec.fld+" is not filled in the loop that generates the codons")
+			continue
+		}
+		pc := pathCond(tb, headBlock, apps[0].At.Block())
+		st := unknown
+		why := "the triplet is appended to " + spec.fld + " under " + short(pc.String())
+		for _, at := range pc.atoms() {
+			if at.Neg || at.Disj || !at.Atom.isBin("==") {
+				continue
+			}
+			for k := 0; k < 2; k++ {
+				kv, isC := at.Atom.Args[k].constInt()
+				o := at.Atom.Args[1-k]
+				if !isC {
+					continue
+				}
+				if residueOf(o) {
+					st, why = broken, spec.fld+" is filled from the residue line, not from NCBI's start/stop line: context-dependent stops (codes 27, 28, 31) and alternative starts are lost"
+					continue
+				}
+				o = stripConv(o)
+				if o.Op != "index" || o.Args[1].String() != idx.String() {
+					continue
+				}
+				switch {
+				case o.Args[0].isParam(1) && kv == spec.mark:
+					st = holds
+				case o.Args[0].isParam(1):
+					st, why = broken, fmt.Sprintf("%s is filled where the start/stop line has %q; NCBI marks it with %q", spec.fld, rune(kv), rune(spec.mark))
+				case o.Args[0].isParam(0):
+					st, why = broken, spec.fld+" is filled from the residue line, not from NCBI's start/stop line: context-dependent stops (codes 27, 28, 31) are lost"
+				}
 			}
 		}
-		c.check(good, "SHAPE-GEN", spec.name, rets[0].Pos(), "the triplet is appended to "+spec.fld+" exactly under that mark", msg)
+		c.judge(st, "SHAPE-GEN", spec.name, apps[0].At.Pos(), "the triplet is appended to "+spec.fld+" exactly under that mark of the start/stop line", why)
 	}
 	// AminoAcids: one entry per key of the residue map, Letter=string(key), Codons=value
-	at := field("AminoAcids")
+	at := partialOf(rt, "AminoAcids")
 	good := false
 	if at != nil {
 		apps := topAppendSites(at)
 		if len(apps) == 1 {
 			e := apps[0].Elem
-			l := e.contains(func(x *Term) bool {
-				return x.Op == "partial" && x.Name == ".Letter" && strings.HasPrefix(x.Args[0].String(), "conv[string](extract[1](next(range(makemap[")
-			})
-			cd := e.contains(func(x *Term) bool {
-				return x.Op == "partial" && x.Name == ".Codons" && strings.HasPrefix(x.Args[0].String(), "extract[2](next(range(makemap[")
-			})
-			good = l && cd
+			l, cd := partialOf(e, "Letter"), partialOf(e, "Codons")
+			good = l != nil && cd != nil && strings.HasPrefix(l.String(), "conv[string](extract[1](next(range(makemap[") && strings.HasPrefix(cd.String(), "extract[2](next(range(makemap[")
 		}
 	}
-	c.check(good, "SHAPE-GEN", "aminoacids=residue map entries", rets[0].Pos(), "AminoAcids holds one {string(residue), codons-of-residue} per map entry", "AminoAcids is not built as one {Letter: string(key), Codons: value} per entry of the residue map (unrecognised shape)")
+	c.checkShape(good, "SHAPE-GEN", "aminoacids=residue map entries", gen.Pos(), "AminoAcids holds one {string(residue), codons-of-residue} per map entry", "AminoAcids is not visibly one {Letter: string(key), Codons: value} per entry of the residue map")
 }
 
 // checkTranslate: SHAPE-XLATE.
@@ -320,153 +440,126 @@ func checkTranslate(c *Ctx) {
 		return
 	}
 	c.useFn(tr)
-	tb := newTB(tr)
-	// find the lookup used as WriteString argument
-	var ws []ssa.CallInstruction
-	var resets, writeRunes []ssa.CallInstruction
-	eachInstr(tr, func(i ssa.Instruction) {
-		if ci, ok := i.(ssa.CallInstruction); ok {
-			switch calleeName(ci) {
-			case "(*strings.Builder).WriteString", "(*strings.Builder).WriteRune", "(*strings.Builder).WriteByte", "(*strings.Builder).Write":
-				if calleeName(ci) == "(*strings.Builder).WriteRune" {
-					writeRunes = append(writeRunes, ci)
-				}
-				ws = append(ws, ci)
-			case "(*strings.Builder).Reset":
-				resets = append(resets, ci)
-			}
-		}
-	})
-	rets := returnsOf(tr)
-	var okRet *ssa.Return
-	for _, r := range rets {
-		if len(r.Results) == 2 {
-			if t := tb.T(r.Results[1]); t.Op == "const" && strings.HasPrefix(t.Name, "nil:") {
-				if okRet != nil {
-					okRet = nil
-					break
-				}
-				okRet = r
-			}
-		}
-	}
-	if okRet == nil {
-		c.bad("SHAPE-XLATE", "Translate:result", tr.Pos(), "expected exactly one success return (value, nil) (unrecognised shape)")
-		return
-	}
-	res := tb.T(okRet.Results[0])
-	if !res.isCall("(*strings.Builder).String") {
-		c.bad("SHAPE-XLATE", "Translate:result", okRet.Pos(), "result is not the accumulated builder string: "+short(res.String()))
-		return
-	}
-	out := res.Args[0].String()
-	// writes into the output builder
-	var outWrites []ssa.CallInstruction
-	var winBuilder string
-	for _, ci := range ws {
-		recv := tb.T(ci.Common().Args[0]).String()
-		if recv == out {
-			outWrites = append(outWrites, ci)
-		}
-	}
-	if len(outWrites) != 1 || calleeName(outWrites[0]) != "(*strings.Builder).WriteString" {
-		c.bad("SHAPE-XLATE", "Translate:one-write-per-window", tr.Pos(), fmt.Sprintf("%d write sites feed the result, want exactly one WriteString", len(outWrites)))
-		return
-	}
-	ow := outWrites[0]
-	arg := tb.T(ow.Common().Args[1])
 	genName := "(poly/transform/codon.Table).generateTranslationTable"
-	okLookup := arg.Op == "lookup" && arg.Name == "" && arg.Args[0].Op == "call" && arg.Args[0].Name == genName && arg.Args[0].Args[0].isParam(1) &&
-		arg.Args[1].isCall("strings.ToUpper") && arg.Args[1].Args[0].isCall("(*strings.Builder).String")
-	c.check(okLookup, "SHAPE-XLATE", "Translate:lookup=table[ToUpper(window)]", ow.Pos(),
-		"residue = translationTable(codonTable)[strings.ToUpper(window.String())]",
-		"the residue written is "+short(arg.String())+"; want the translation map of the table parameter indexed by strings.ToUpper(window)")
-	if okLookup {
-		winBuilder = arg.Args[1].Args[0].Args[0].String()
-	}
-	// window: one WriteRune of the range value of param 0 per iteration, unconditional in the loop body
-	okWin := false
-	var loopBody *ssa.BasicBlock
-	for _, wr := range writeRunes {
-		if tb.T(wr.Common().Args[0]).String() == winBuilder && tb.T(wr.Common().Args[1]).String() == "extract[2](next(range(param[0])))" {
-			// unconditional: its block is the range body (direct successor of the block holding the 'next')
-			blk := wr.Block()
-			if len(blk.Preds) == 1 {
-				if _, ok := blk.Preds[0].Instrs[len(blk.Preds[0].Instrs)-1].(*ssa.If); ok {
-					okWin = true
-					loopBody = blk
+	tb := newDeepTB(tr, genName)
+	wi := windowModel(tr, tb, "param[0]")
+	poolHygiene(c, "SHAPE-XLATE", family(tr))
+	c.judge(wi.State, "SHAPE-XLATE", "Translate:window of 3 over every letter", tr.Pos(),
+		"every input letter is appended to the window unconditionally; a region runs exactly at Len()==3 and resets the window; the loop leaves only at end of input", wi.Why)
+	if wi.State == holds {
+		// the residue written per complete window
+		var out []ssa.CallInstruction
+		var res *Term
+		for _, a := range resultAlts(tb, tr, 0) {
+			if a.T.isCall("(*strings.Builder).String") {
+				res = a.T
+			}
+		}
+		if res != nil {
+			eachInstr(tr, func(i ssa.Instruction) {
+				if ci, ok := i.(ssa.CallInstruction); ok && strings.HasPrefix(calleeName(ci), "(*strings.Builder).Write") && ci != wi.Write {
+					if tb.T(ci.Common().Args[0]).String() == res.Args[0].String() {
+						out = append(out, ci)
+					}
+				}
+			})
+		}
+		switch {
+		case res == nil:
+			c.undecided("SHAPE-XLATE", "Translate:lookup=table[ToUpper(window)]", tr.Pos(), "the result is not a strings.Builder's content")
+		case len(out) != 1:
+			c.undecided("SHAPE-XLATE", "Translate:lookup=table[ToUpper(window)]", tr.Pos(), fmt.Sprintf("%d sites write the result, the model needs one", len(out)))
+		default:
+			ow := out[0]
+			want := "lookup(call[" + genName + "](param[1]), call[strings.ToUpper](" + wi.Key + "))"
+			got := tb.T(ow.Common().Args[1])
+			if got.Op == "lookup" && len(got.Args) == 2 && got.Args[1].Op == "phi" && !got.Args[1].Cyc {
+				// the key has alternatives: each must be upper-cased
+				raw := false
+				for _, l := range phiLeaves(got.Args[1]) {
+					if l.String() == wi.Key {
+						raw = true
+					}
+				}
+				if raw {
+					c.bad("SHAPE-XLATE", "Translate:lookup=table[ToUpper(window)]", ow.Pos(), "on some path the window is looked up as typed, without strings.ToUpper: lower- or mixed-case codons on that path miss the table (letter case must be irrelevant)")
+					goto emitted
 				}
 			}
-		}
-	}
-	nWinWrites := 0
-	for _, ci := range ws {
-		if tb.T(ci.Common().Args[0]).String() == winBuilder {
-			nWinWrites++
-		}
-	}
-	c.check(okWin && nWinWrites == 1, "SHAPE-XLATE", "Translate:window+=each letter", ow.Pos(),
-		"every input letter is appended to the window exactly once, unconditionally, in input order",
-		fmt.Sprintf("the window builder must receive each rune of the sequence once per iteration unconditionally (found %d writes, shape ok=%v)", nWinWrites, okWin))
-	if loopBody != nil {
-		pc := pathCond(tb, loopBody, ow.Block()).String()
-		wantPC := "binop[==](call[(*strings.Builder).Len](" + winBuilder + "), const[3])"
-		okReset := false
-		for _, r := range resets {
-			if tb.T(r.Common().Args[0]).String() == winBuilder && r.Block() == ow.Block() {
-				okReset = true
-			}
-		}
-		nReset := 0
-		for _, r := range resets {
-			if tb.T(r.Common().Args[0]).String() == winBuilder {
-				nReset++
-			}
-		}
-		c.check(pc == wantPC && okReset && nReset == 1, "SHAPE-XLATE", "Translate:window==3->emit+reset", ow.Pos(),
-			"a residue is emitted exactly when the window holds 3 letters, and the window is reset in that branch only",
-			fmt.Sprintf("emit condition %s (want %s); reset in emitting branch=%v; resets=%d", short(pc), wantPC, okReset, nReset))
-		// no early exit: all blocks of the loop except the header have all successors inside the loop
-		hdr := loopBody.Preds[0]
-		okExit := true
-		for _, b := range tr.Blocks {
-			if b == hdr || !hdr.Dominates(b) || !reaches(b, hdr) {
-				continue
-			}
-			for _, s := range b.Succs {
-				if !(s == hdr || (hdr.Dominates(s) && reaches(s, hdr))) {
-					okExit = false
+			c.cmpTerm("SHAPE-XLATE", "Translate:lookup=table[ToUpper(window)]", ow.Pos(), got, want,
+				"residue = translationTable(codonTable)[strings.ToUpper(window.String())]", "the residue written per complete window", wi.Key)
+		emitted:
+			st, why := holds, ""
+			if !wi.full(ow.Block()) {
+				st, why = unknown, "the residue write is not in the complete-window branch"
+				if pc := pathCond(tb, wi.Write.Block(), ow.Block()); pc.Op == "true" {
+					st, why = broken, "a residue is written after every letter, not once per complete codon"
 				}
 			}
+			c.judge(st, "SHAPE-XLATE", "Translate:one residue per complete window", ow.Pos(), "the residue is written exactly in the Len()==3 region", why)
 		}
-		c.check(okExit, "SHAPE-XLATE", "Translate:no early exit", hdr.Instrs[0].Pos(), "the loop leaves only when the input is exhausted", "the translation loop has an exit other than end of input (e.g. stopping at a stop codon)")
 	}
 	// generateTranslationTable
 	g := w.method("transform/codon", "Table", "generateTranslationTable")
 	if g == nil {
-		c.missing("SHAPE-XLATE", "translation map", "method Table.generateTranslationTable")
+		c.missingHelper("SHAPE-XLATE", "translation map", "method Table.generateTranslationTable")
 		return
 	}
 	c.useFn(g)
-	tg := newTB(g)
+	tg := newDeepTB(g)
+	wantK, wantV := "field[Triplet](each(field[Codons](each(field[AminoAcids](param[0])))))", "field[Letter](each(field[AminoAcids](param[0])))"
 	n := 0
-	good := false
-	var p token.Pos
+	st, why := unknown, "no store into the translation map found"
+	var p = g.Pos()
 	eachInstr(g, func(i ssa.Instruction) {
-		if mu, ok := i.(*ssa.MapUpdate); ok {
-			n++
-			p = mu.Pos()
-			k, v, m := tg.T(mu.Key).String(), tg.T(mu.Value).String(), tg.T(mu.Map)
-			if k == "field[Triplet](each(field[Codons](each(field[AminoAcids](param[0])))))" && v == "field[Letter](each(field[AminoAcids](param[0])))" && m.Op == "makemap" {
-				good = true
+		mu, ok := i.(*ssa.MapUpdate)
+		if !ok {
+			return
+		}
+		n++
+		p = mu.Pos()
+		k, v, m := tg.T(mu.Key), tg.T(mu.Value), tg.T(mu.Map)
+		if m.Op != "makemap" {
+			return
+		}
+		hdr := enclosingLoopHeader(mu.Block())
+		uncond := false
+		if hdr != nil {
+			for _, e := range hdr.Succs {
+				if e != hdr && hdr.Dominates(e) && reaches(e, hdr) && e.Dominates(mu.Block()) {
+					uncond = pathCond(tg, e, mu.Block()).Op == "true"
+				}
+			}
+		}
+		switch {
+		case k.String() == wantK && v.String() == wantV && uncond:
+			if st == unknown {
+				st = holds
+			}
+		case k.String() == wantK && v.String() == wantV:
+			st, why = unknown, "the Triplet->Letter store is conditional"
+		case k.String() == wantK && len(opaqueParts(v, vocabOf(wantK, wantV))) == 0 && localDiff(v, wantV):
+			st, why = broken, "codon triplets are mapped to "+short(v.String())+", want the Letter of the amino acid that lists them"
+		case v.String() == wantV && len(opaqueParts(k, vocabOf(wantK, wantV))) == 0 && localDiff(k, wantK):
+			st, why = broken, "the map is keyed by "+short(k.String())+", want each codon's Triplet"
+		case k.contains(func(x *Term) bool { return x.isParam(0) }) && v.Op == "const":
+			// an additional constant entry over table codons (e.g. stops forced to a fixed letter)
+			st, why = broken, "codons of the table are additionally mapped to the constant "+v.Name+", overriding the table's own letter"
+		default:
+			if st == holds {
+				st, why = unknown, "additional store "+short(k.String())+" -> "+short(v.String())
 			}
 		}
 	})
-	gr := returnsOf(g)
-	retOK := len(gr) == 1 && tg.T(gr[0].Results[0]).Op == "makemap"
-	c.check(n == 1 && good && retOK, "SHAPE-XLATE", "map=all (Triplet->Letter)", p,
-		"the map holds exactly Triplet->Letter for every codon of every amino acid (two nested ranges, one store, no filter)",
-		fmt.Sprintf("translation map is not exactly {codon.Triplet: aminoAcid.Letter} over all amino acids and codons (map stores=%d, canonical store=%v, returns fresh map=%v)", n, good, retOK))
-	// no conditional around the store: its block is reached unconditionally from the inner range body
-	_ = sort.Ints
+	if st == holds {
+		okRet := false
+		for _, a := range resultAlts(tg, g, 0) {
+			okRet = a.T.Op == "makemap"
+		}
+		if !okRet {
+			st, why = unknown, "the map returned is not visibly the one filled"
+		}
+	}
+	c.judge(st, "SHAPE-XLATE", "map=all (Triplet->Letter)", p,
+		"the map holds exactly Triplet->Letter for every codon of every amino acid (two nested ranges, unconditional store)", why)
 }
